@@ -195,6 +195,7 @@ func sameTagAlterations(r *Rng, a *keyPair) []*keyPair {
 		}
 	}
 	lo := n / 2 &^ 1 // the second half: the modulus of an RSA key, Y of an ECDSA key
+	n -= 2           // not the last word: an RSA modulus stays odd (crypto/rsa refuses an even one with an error of its own)
 	for t := 0; t < 50; t++ {
 		i := lo + 2*r.Intn((n-lo)/2)
 		j := lo + 2*r.Intn((n-lo)/2)
@@ -302,6 +303,7 @@ func keySeqCase(r *Rng, a, b *keyPair, zone [][]byte, byTyp map[uint16]tdef, mod
 		want := s.k == sg.maker
 		st["keyseq_checked"]++
 		got := verifyCase(kp, kp.k, kp.owner, sg.g, sg.sf, sg.rs, i < 6)
+		st["keyseq_"+got]++
 		call := fmt.Sprintf("Verify(key %s, %s) = %s", names[s.k], sg.name, got)
 		hist = append(hist, call)
 		key, desc := "", ""
